@@ -16,7 +16,7 @@ EXPLANATION = (
     "phases, cap0 the probed capacity) and the current I[index of the battery] of this iteration's solution, and advance "
     "phidx by one modulo the number of phases exactly once, after those uses; (R3) append to the log exactly under the loop "
     "condition evaluated on the new state, with time t[-1] + duration, the log starting with t = 0 and the probed state; "
-    "(R4) a target that is not a Source raises ValueError before anything is written. Not decided: the values of the "
+    "(R4) a target that is not a Source raises ValueError before anything is written, and the helpers that resolve the name do not resolve the empty string (the registry's 'no rail' value) to a component. Not decided: the values of the "
     "currents (C01/C03 - the solver's iteration count is not checked here), that time is strictly increasing (needs "
     "duration > 0), termination.")
 
@@ -31,6 +31,8 @@ class BattHooks(SysHooks):
 def run(model, rep, tier):
     rep.explanation = EXPLANATION
     rep.attempt(rules, model, rep)
+    from .. import editrules
+    rep.attempt(lambda: editrules.name_resolution_rule(model, rep, sysrules.roles(model), "R4"))
 
 
 def rules(model, rep):
